@@ -50,7 +50,7 @@ func (Prop) Describe(t vp.Tier) vp.Description {
 			"time (millis) limits are not exercised: expiry depends on the wall clock",
 			"the 20 s CPU-time bound is three orders of magnitude above the honest cost of a killed call; the wall-clock watchdog firing is inconclusive",
 		},
-		Floor: map[vp.Tier]int64{vp.Quick: 1500, vp.Thorough: 30000}[t],
+		Floor: map[vp.Tier]int64{vp.Quick: 1500, vp.Thorough: 15000}[t],
 	}
 }
 
